@@ -203,11 +203,8 @@ def snapshot(target: Path):
 
 
 def presence(target: Path):
-    if not os.path.lexists(target):
-        return "no"
-    if os.path.islink(target) and not os.path.exists(target):
-        return "ambiguous"
-    return "yes"
+    """lstat: anything at the path -- also a symbolic link that dangles -- is something that exists."""
+    return "yes" if os.path.lexists(target) else "no"
 
 
 def jtxt(v):
@@ -247,8 +244,11 @@ class Runner:
 def make_world(ctx, run, idx, case):
     world = case["world"]
     mod = module_of(world)
-    root = ctx.scratch / "worlds" / f"w{idx}"
+    base = ctx.scratch / "worlds" / f"w{idx}"
+    root = base / "up2" / "up1"          # two directories above the module root belong to the world
     root.mkdir(parents=True)
+    (root / "other").mkdir()
+    (root / "other" / "o.go").write_text("package other\n\ntype O interface{ F() }\n")
     (root / "go.mod").write_text(vlib.GO_SUM_MOD.replace("example.com/w", mod))
     shutil.copy(vlib.REPO / "go.sum", root / "go.sum")
     (root / "r.go").write_text(ROOT_GO)
@@ -257,6 +257,13 @@ def make_world(ctx, run, idx, case):
     (root / "sub" / "z.go").write_text(SUB_Z_GO)
     (root / "cfgs").mkdir()
     cwd, target, pre, post = cfg_layout(case["cfg"], root)
+    anc = case.get("anc", "none")
+    if anc != "none":
+        # u<levels above the working directory>-<yaml|yml>-<valid|empty>
+        up, ext, kind = anc.split("-")
+        adir = cwd.parents[int(up[1:]) - 1]
+        (adir / (".mockery." + ext)).write_text(
+            "" if kind == "empty" else f"# an older config further up\nall: false\npackages:\n  {mod}/other:\n    config:\n      all: true\n")
     k = case["start"]
     if k == "absent":
         pass
@@ -368,7 +375,7 @@ def replay_case(ctx, run, idx, case):
     mod = module_of(world)
     gopkgs = [{"s": pkg_string(world, p), "ifaces": sorted(GO_IFACES[p])} for p in ("root", "sub")]
     events = [{"op": "reset", "case": idx, "snap": snapshot(target), "parent_ok": target.parent.is_dir(),
-               "gopkgs": gopkgs}]
+               "gopkgs": gopkgs, "anc": case.get("anc", "none")}]
     obs = []
     for j, o in enumerate(case["ops"]):
         before = snapshot(target)
@@ -406,8 +413,51 @@ def replay_case(ctx, run, idx, case):
         events.append(ev)
         obs.append(ob)
     if not os.environ.get("VERIF_KEEP"):
-        shutil.rmtree(root, ignore_errors=True)
+        shutil.rmtree(root.parent.parent, ignore_errors=True)
     return events, obs
+
+
+def race_case(ctx, run, idx, n, rnd):
+    """n concurrent `mockery init` commands (distinct package strings) on one absent target path, then a load.
+    Returns (events, observation)."""
+    case = {"world": "main", "cfg": ("default", "rel", "subdir")[rnd % 3], "start": "absent", "ops": []}
+    root, cwd, target, pre, post = make_world(ctx, run, idx, case)
+    mod = module_of("main")
+    pkgs = [f"{mod}/racer{i}" for i in range(n)]
+    events = [{"op": "reset", "case": idx, "snap": snapshot(target), "parent_ok": target.parent.is_dir(), "gopkgs": []}]
+    before, pres = snapshot(target), presence(target)
+    barrier = threading.Barrier(n)
+    res = [None] * n
+
+    def one(i):
+        e = go_env()
+        barrier.wait()
+        p = subprocess.run([run.bin, *pre, "init", *post, "--", pkgs[i]], cwd=cwd, env=e, capture_output=True, timeout=120)
+        res[i] = (p.returncode, (p.stderr + p.stdout).decode("utf8", "replace")[-300:])
+
+    ts = [threading.Thread(target=one, args=(i,)) for i in range(n)]
+    for t in ts:
+        t.start()
+    for t in ts:
+        t.join()
+    after = snapshot(target)
+    winners = [pkgs[i] for i in range(n) if res[i][0] == 0]
+    ev = {"op": "race", "case": idx, "n": n, "exits": [r[0] for r in res], "oks": len(winners),
+          "winner": winners[0] if len(winners) == 1 else "-", "before": before, "after": after, "presence": pres,
+          "created": after != before and os.path.isfile(target) and not os.path.islink(target)}
+    events.append(ev)
+    stray = sorted(x.name for x in target.parent.iterdir() if x.name.startswith(target.name) and x.name != target.name)
+    # what survives must be what the winner wrote: load it
+    code, out, err, _, _ = run.mockery(cwd, pre + post + ["showconfig"])
+    keys, eff = read_showconfig(out) if code == 0 else ([], {})
+    fkeys, allv, top = read_file_projection(target) if os.path.isfile(target) else (["<no file>"], "-", {})
+    events.append({"op": "load", "case": idx, "exit": code, "before": after, "after": snapshot(target), "keys": keys,
+                   "fkeys": fkeys, "all": allv, "top": top, "eff": eff})
+    ob = {"n": n, "exits": ev["exits"], "oks": len(winners), "winners": winners, "survivor_keys": fkeys, "loaded_keys": keys,
+          "load_exit": code, "stray_files": stray, "tails": [r[1] for r in res][:3]}
+    if not os.environ.get("VERIF_KEEP"):
+        shutil.rmtree(root.parent.parent, ignore_errors=True)
+    return events, ob
 
 
 def conc(world, ids):
@@ -421,7 +471,7 @@ def judge_case(ctx, idx, case, obs):
     world = case["world"]
     for j, (o, ob) in enumerate(zip(case["ops"], obs)):
         base = {"op": o["op"], "world_class": "main" if world == "main" else world[0], "cfg": case["cfg"],
-                "start": case["start"], "env": case.get("env", "none"), "pkg_id": o["pkg"], "step": j,
+                "start": case["start"], "env": case.get("env", "none"), "anc": case.get("anc", "none"), "pkg_id": o["pkg"], "step": j,
                 "str_class": str_class(pkg_string(world, o["pkg"])) if o["pkg"] != "-" else "-"}
         det = {"case": case, "step": j, "observed": {k: v for k, v in ob.items() if k != "hook"}, "pkg_string": pkg_string(world, o["pkg"]) if o["pkg"] != "-" else None,
                "module": module_of(world)}
@@ -582,7 +632,7 @@ def run(ctx):
         keyed[json.dumps(c, sort_keys=True)] = c
     cases = list(keyed.values())
     def opkey(c):
-        return (c["world"], c["cfg"], c["start"], c.get("env", "none"), tuple(json.dumps(o, sort_keys=True) for o in c["ops"]))
+        return (c["world"], c["cfg"], c["start"], c.get("env", "none") + "/" + c.get("anc", "none"), tuple(json.dumps(o, sort_keys=True) for o in c["ops"]))
     keys = {opkey(c) for c in cases}
     prefixes = set()
     for k in keys:
@@ -606,6 +656,8 @@ def run(ctx):
         "missing parent directory": lambda c: c["cfg"] == "missing",
         "init under MOCKERY_* variables, judged load": lambda c: c.get("env", "none") != "none" and any(o["op"] == "load" and o["expect"]["judged"] for o in c["ops"]),
         "init under MOCKERY_* variables, judged run": lambda c: c.get("env", "none") != "none" and any(o["op"] == "run" and o["expect"]["judged"] for o in c["ops"]),
+        "ancestor config, judged run": lambda c: c.get("anc", "none") != "none" and any(o["op"] == "run" and o["expect"]["judged"] for o in c["ops"]),
+        "ancestor .mockery.yaml two levels up": lambda c: c.get("anc", "").startswith("u2-yaml"),
         "init under MOCKERY_CONFIG": lambda c: c.get("env") in ("config", "several") and any(o["op"] == "init" and o["ok"] for o in c["ops"]),
         "dangling link": lambda c: c["start"] == "dangling",
         "directory at the target": lambda c: c["start"] in ("dir", "dirfull"),
@@ -654,11 +706,51 @@ def run(ctx):
     ctx.cov["replay_wall_s"] = round(replay_wall, 1)
     ctx.cov["ops_by_kind"] = {k: sum(1 for c in cases for o in c["ops"] if o["op"] == k) for k in ("init", "load", "run")}
 
+    # ---------------------------------------------------------------- 2b. concurrent inits
+    # TLC: the O_EXCL model satisfies "exactly one winner, never replaced" under every interleaving; the split
+    # check-then-rename model must violate it (the race exists in the model, so the cases are not vacuous).
+    ra = ctx.tlc("InitCmdConc", "InitCmdConc_atomic.cfg", workers=2, timeout=600)
+    if not ra.ok:
+        raise MachineryError("TLC: the atomic concurrent-init model does not satisfy its contract:\n" + ra.tail())
+    rs = ctx.tlc("InitCmdConc", "InitCmdConc_split.cfg", workers=1, timeout=600, count=False)
+    if rs.violated != "ExactlyOneWinner":
+        raise MachineryError("vacuous: TLC finds no race in the split (check, then publish) model:\n" + rs.tail())
+    ns = sorted({c["n"] for c in ra.prints("CONC")})
+    if len(ns) < 3:
+        raise MachineryError(f"concurrent-init model exported too few sizes: {ns}")
+    rounds = 12 if thorough else 4
+    race_obs = []
+    t0 = time.time()
+    for rnd in range(rounds):
+        for n in ns:
+            idx = len(cases) + len(race_obs)
+            evs, ob = race_case(ctx, run_, idx, n, rnd)
+            race_obs.append(ob)
+            by_case[idx] = evs
+            all_events += evs
+            if ob["oks"] != 1:          # expectation exported by the model: oks = 1
+                sig = {"kind": "concurrent-init-winners", "op": "race", "n": n, "oks": ob["oks"], "pkg_id": "-", "str_class": "-", "step": 0}
+                flagged[idx] = sig
+                ctx.violation(sig, {"observed": ob, "expect": "exactly one of the concurrent inits reports success"})
+            elif ob["survivor_keys"] != ob["winners"] or ob["loaded_keys"] != ob["winners"]:
+                sig = {"kind": "concurrent-init-survivor", "op": "race", "n": n, "pkg_id": "-", "str_class": "-", "step": 1}
+                flagged[idx] = sig
+                ctx.violation(sig, {"observed": ob, "expect": "the surviving file is the winner's"})
+    ctx.cov["concurrent_init_races"] = len(race_obs)
+    ctx.cov["concurrent_init_sizes"] = ns
+    ctx.cov["concurrent_wall_s"] = round(time.time() - t0, 1)
+    ctx.cov["evaluations"] += len(race_obs)
+
     # ---------------------------------------------------------------- 3. trace validation of the op logs
     n_ok, rej = validate(ctx, all_events, by_case)
     ctx.cov["traces_validated_against_impl"] += n_ok
     ctx.cov["traces_rejected"] = len(rej)
     for rj in rej:
+        if rj["case"] >= len(cases):        # a concurrent-init case
+            if rj["case"] not in flagged:
+                ctx.violation({"kind": "trace-" + rj["at"]["op"], "op": rj["at"]["op"], "pkg_id": "-", "str_class": "-", "race": True},
+                              {"rejected_event": rj["at"], "op_log": rj["events"]})
+            continue
         c = cases[rj["case"]]
         at = rj["at"]
         step = sum(1 for e in rj["events"][:rj["events"].index(at)] if e["op"] != "reset")
@@ -678,7 +770,7 @@ def run(ctx):
             elif diff_eff:
                 kind, why = "defaults-in-effect", diff_eff
         sig = {"kind": kind, "op": at["op"], "world_class": "main" if c["world"] == "main" else c["world"][0],
-               "cfg": c["cfg"], "start": c["start"], "env": c.get("env", "none"), "pkg_id": o["pkg"], "step": step,
+               "cfg": c["cfg"], "start": c["start"], "env": c.get("env", "none"), "anc": c.get("anc", "none"), "pkg_id": o["pkg"], "step": step,
                "str_class": str_class(pkg_string(c["world"], o["pkg"])) if o["pkg"] != "-" else "-"}
         if why:
             sig["keys"] = ",".join(sorted(why))
@@ -706,7 +798,7 @@ def run(ctx):
     # ---------------------------------------------------------------- evidence
     mid = len(cases) // 2
     for i in (0, mid, len(cases) - 1):
-        ctx.sample({"case": {k: cases[i].get(k) for k in ("world", "cfg", "start", "env")},
+        ctx.sample({"case": {k: cases[i].get(k) for k in ("world", "cfg", "start", "env", "anc")},
                     "ops": [{"op": o["op"], "pkg": pkg_string(cases[i]["world"], o["pkg"]) if o["pkg"] != "-" else None} for o in cases[i]["ops"]],
                     "op_log": by_case[i][1:]})
     for i, c in enumerate(cases):
@@ -726,6 +818,7 @@ def run(ctx):
         "documented defaults = the init example of docs/configuration.md, for other keys the parameter table (cross-checked against the docs at start-up)",
         "the plain run is judged only for strings that name a Go package of the scratch module (module paths incl. YAML-significant ones: true, null, 123, 1.5, yes, on, n, 0x1f, 2001-01-01)",
         "runs as root: permission-based protection of an existing file is not exercised",
+        "concurrent inits: real schedules cannot be forced (init.go has no hook); n processes are released from a barrier, several rounds per n -- the model check covers every interleaving, the replay samples them",
     ]
     return {"level": "model_checking", "exhaustive": False}
 
